@@ -130,6 +130,9 @@ func (s Scheme) Doc() map[string]interface{} {
 		return map[string]interface{}{"type": "http", "scheme": "bearer"}
 	case "basic":
 		return map[string]interface{}{"type": "http", "scheme": "basic"}
+	case "bearerupper":
+		// (scheme names are compared as written: this spelling has no generated authenticator)
+		return map[string]interface{}{"type": "http", "scheme": "Bearer"}
 	case "keyheader":
 		return map[string]interface{}{"type": "apiKey", "in": "header", "name": s.Param}
 	case "keyquery":
